@@ -9,7 +9,7 @@ three facts the methods read from `ctx`/`comp` (`comp.is_union()`,
 
 Written as the Rust is today, including: `align_to_latest_field` aligning to the *previous*
 field's alignment, `saw_vtable` overwriting (not maximising) `max_field_align`,
-`add_tail_padding` not advancing `latest_offset` and subtracting without a guard,
+`add_tail_padding` not advancing `latest_offset`,
 `padding_field` raising `max_field_align`, the array-of-over-aligned-elements hack.
 -/
 namespace BindgenModel.StructLayout
@@ -136,16 +136,18 @@ def Tracker.sawField (t : Tracker) (ty : FieldTy) (offBits : Option Nat) : Track
       | _ => fl
     t.sawFieldWithLayout fl offBits
 
-/-- `add_tail_padding` guard: the unguarded `comp_layout.size - self.latest_offset` underflows -/
-def Tracker.tailPaddingUnderflows (t : Tracker) (comp : Layout) : Bool :=
-  t.forcePadding && !t.isRustUnion && !t.lastFieldWasFlexibleArray && decide (comp.size < t.latestOffset)
+/-- `add_tail_padding` used to subtract without a guard (`comp_layout.size - self.latest_offset`
+underflowed for a union emitted as a struct that had accumulated more than its size); since
+/repo commit 8d11e5e5 the early return compares with `>=`, so the subtraction cannot underflow.
+The predicate is kept (constantly `false`) so that `emit` keeps its shape. -/
+def Tracker.tailPaddingUnderflows (_t : Tracker) (_comp : Layout) : Bool := false
 
-/-- `add_tail_padding` (meaningful when `tailPaddingUnderflows` is false) -/
+/-- `add_tail_padding` -/
 def Tracker.addTailPadding (t : Tracker) (comp : Layout) : Tracker × Option Pad :=
   if !t.forcePadding then (t, none)
   else if t.isRustUnion then (t, none)
   else if t.lastFieldWasFlexibleArray then (t, none)
-  else if t.latestOffset = comp.size then (t, none)
+  else if t.latestOffset ≥ comp.size then (t, none)
   else let (t, p) := t.paddingField { size := comp.size - t.latestOffset, align := 0 }; (t, some p)
 
 /-- `pad_struct` -/
